@@ -24,9 +24,9 @@ STUBS = [
     "numpy float arrays that receive proxies become dtype=object arrays (np facade); slicing/broadcast/+= are numpy's own",
 ]
 FLOAT_MODE = "R-mode exact reals for sample values (sums of products with at most one symbolic factor)"
-BOUNDS = {"quick": dict(programs=11, slot_lengths="4-20 ns", extensions=[0, 3]),
-          "thorough": dict(programs=11, slot_lengths="4-32 ns (every program also with all durations lengthened by 1 and 3 clock periods)", extensions=[0, 1, 2, 5])}
-OUTSIDE = ["modulated samples (C14)", "symbolic timelines", "phase values outside pulses (kept from the previous pulse)"]
+BOUNDS = {"quick": dict(programs=13, slot_lengths="4-20 ns", extensions=[0, 3]),
+          "thorough": dict(programs=13, slot_lengths="4-32 ns (every program also with all durations lengthened by 1 and 3 clock periods)", extensions=[0, 1, 2, 5])}
+OUTSIDE = ["modulated samples (C14)", "the per-atom (Local / all_local) view of the padding of a channel that is still in EOM mode beyond its own end", "symbolic timelines", "phase values outside pulses (kept from the previous pulse)"]
 
 S = lambda n, k="real", **kw: dict(s=n, k=k, **kw)  # noqa: E731
 
@@ -123,6 +123,22 @@ PROGRAMS = {
         ["enable_eom", "g", 2.0, 0.0, -1.0], ["add_eom", "g", 8, 1.4],
         ["modify_eom", "g", 1.0, 0.0, 3.0], ["add_eom", "g", 8, 1.77], ["disable_eom", "g"],
         ["add", "l", ["cp", 7, S("a1", lo=0, hi=10), S("d1", lo=-20, hi=20), 2.14]]]),
+    # a user-made detuned delay (constant zero amplitude, detuning, its own phase B) between a pulse of phase A and one of phase B
+    "detuned_delay_phase": dict(device="mock", prog=[
+        ["declare", "g", "rydberg_global"], ["declare", "l", "rydberg_local", "q1"],
+        ["add", "g", ["cp", 8, S("a0", lo=0), S("d0"), 0.5]],
+        ["add", "g", ["cp", 6, 0.0, S("d1"), 1.2]],
+        ["add", "g", ["cp", 5, S("a1", lo=0), S("d2"), 1.2]],
+        ["add", "l", ["cp", 7, S("a2", lo=0), S("d3"), 2.0], "no-delay"],
+        ["add", "l", ["cp", 4, 0.0, S("d4"), 0.7], "no-delay"],
+        ["add", "l", ["cp", 6, S("a3", lo=0), S("d5"), 0.7], "no-delay"]]),
+    # the Global channel g is left in EOM mode and is shorter than l: beyond its end it idles at the off-detuning
+    "eom_open_short": dict(device="virt", prog=[
+        ["declare", "g", "ryd_glob"], ["declare", "l", "ram_glob"],
+        ["enable_eom", "g", 2.0, 0.0, -1.0],
+        ["add_eom", "g", 8, 0.3],
+        ["add", "l", ["cp", 60, S("a0", lo=0, hi=10), S("d0", lo=-20, hi=20), 0.66], "no-delay"],
+        ["add", "l", ["cp", 40, S("a1", lo=0, hi=10), S("d1", lo=-20, hi=20), 1.66], "no-delay"]]),
     "retarget_chain": dict(device="digital", prog=[
         ["declare", "l", "raman_local", "q0"], ["declare", "g", "rydberg_global"],
         ["add", "l", ["cp", 16, S("a0", lo=0, hi=10), S("d0", lo=-20, hi=20), 2.51]],
@@ -221,6 +237,7 @@ def h_program(shape):
                 # reference attribution
                 loc = {q: ([0.0] * T, [0.0] * T) for q in qids}
                 glob = ([0.0] * T, [0.0] * T)
+                unspecified = {}
                 for name, cs in seq._schedule.items():
                     ch = cs.channel_obj
                     if ch.basis != basis:
@@ -245,6 +262,14 @@ def h_program(shape):
                                 w = wmap[q] if is_dmm else 1.0
                                 loc[q][0][t] = loc[q][0][t] + a[k]
                                 loc[q][1][t] = loc[q][1][t] + d[k] * w
+                    if as_global and cs.in_eom_mode() and cs.get_duration() < T:
+                        # "extending only pads ... off-detuning if still in EOM mode": the shorter channel idles at detuning_off
+                        for t in range(cs.get_duration(), T):
+                            glob[1][t] = glob[1][t] + float(cs.eom_blocks[-1].detuning_off)
+                    if not as_global and cs.in_eom_mode() and cs.get_duration() < T:
+                        # the per-atom view of that padding is not specified (no slot covers it): those times are skipped
+                        for q in qids:
+                            unspecified.setdefault(q, set()).update(range(cs.get_duration(), T))
                 tag = "nested_all_local" if all_local else "nested"
                 g = nd["Global"].get(basis)
                 obs.append((tag + ":global_amp", AND(*[EQ(g["amp"][t] if g else 0.0, glob[0][t]) for t in range(T)])))
@@ -253,7 +278,8 @@ def h_program(shape):
                 for q in qids:
                     e = L.get(q)
                     obs.append((tag + ":atom_amp", AND(*[EQ(e["amp"][t] if e else 0.0, loc[q][0][t]) for t in range(T)])))
-                    obs.append((tag + ":atom_det", AND(*[EQ(e["det"][t] if e else 0.0, loc[q][1][t]) for t in range(T)])))
+                    obs.append((tag + ":atom_det", AND(*[EQ(e["det"][t] if e else 0.0, loc[q][1][t]) for t in range(T)
+                                                         if t not in unspecified.get(q, ())])))
         return obs
 
     return h
